@@ -429,13 +429,14 @@ def processSection (o : Options) (format : Format) : DM Bool := do
     if o.removeEmptyFiles == .yes && patch.operation == .delete then
       if outBytes.isEmpty then
         -- only a patch which was applied removes the file (D110); if it was skipped or some of it failed the result is written as that of
-        -- any other patch (it may be what is left by the hunks which did apply), unless there is no file at all (D111)
+        -- any other patch (it may be what is left by the hunks which did apply), unless there was no file to read to begin with
+        -- (D111; the file which was read, not the one which is written: D112)
         if !r.skipped && r.failed == 0 then
           if !o.dryRun then
             if shouldBackup then makeBackupFor o outputFile
             if (← fsExists outputFile) then removeFileAndEmptyParents outputFile
           writeToFile := false
-        else if !(← fsExists outputFile) then
+        else if !(← fsExists fileToPatch) then
           writeToFile := false
       else if patch.newPath == devNull then
         emit .notDeleting; failNow
